@@ -325,6 +325,10 @@ func (r *rw) block(b *ast.BlockStmt) {
 // pointee). Unsynchronised shared-memory writes thereby become visible to the explorer (reads are not instrumented).
 var writeYields bool
 
+// sharedYields: only the scheduling points around writes to captured / package-level variables (see sharedVarWrite),
+// without the ones before heap writes; used for the codec package, whose encoders write to their buffers all the time.
+var sharedYields bool
+
 func heapTarget(e ast.Expr) bool {
 	for {
 		p, ok := e.(*ast.ParenExpr)
@@ -364,7 +368,7 @@ func needsWriteYield(s ast.Stmt) bool {
 // outside the innermost enclosing function literal (captured by the closure) or at package level (same file). Such a write
 // gets a scheduling point before AND after it, so that another thread can run between the write and the next read.
 func (r *rw) sharedVarWrite(s ast.Stmt) bool {
-	if !writeYields {
+	if !writeYields && !sharedYields {
 		return false
 	}
 	shared := func(e ast.Expr) bool {
@@ -686,6 +690,8 @@ func main() {
 			out = args[i]
 		case "-writeyields":
 			writeYields = true
+		case "-sharedyields":
+			sharedYields = true
 		default:
 			pkgs = append(pkgs, args[i])
 		}
